@@ -24,6 +24,7 @@ RULE = ('process programs (declared nested inputs with defaults, nested and dyna
         'else / while steppers) x plans with pause / play / kill x every save point (each ENTERED_STATE event, each paused point) x 3 media x '
         '{default loader, custom loader in both contexts}; distinct by (program, plan, save point, medium, loader); non-trivial for save points '
         'after CREATED')
+RULE += ('; also: save points at every quiescent point and right after each request, processes with a custom state codec, input values mutated after construction, the bundles of one save point loaded through one reused load context')
 ASSUMPTIONS = ['bundles compared structurally: exceptions by type and args, mappings order-insensitively, the traceback text of an excepted state ignored',
                'a WorkChain waiting on futures / children cannot be saved and is not a save point', 'listeners are not attached (they would be persisted)']
 REQUIRED = ['roundtrips', 'medium/copy', 'medium/pickle', 'medium/yaml', 'loader/default', 'loader/custom', 'points/created', 'points/running', 'points/waiting',
